@@ -30,6 +30,7 @@ type c04Spec struct {
 	NoYear   int      `json:"no_year,omitempty"` // a whole calendar year without records (no file in layout 1)
 	Sent     []string `json:"sent,omitempty"`    // "date:col" cells holding the sentinel (col: sun | verd)
 	LowWind  []string `json:"low_wind,omitempty"`
+	Swapped  []string `json:"swapped,omitempty"` // days whose minimum and maximum temperature are exchanged in the file
 	Preco    bool     `json:"preco,omitempty"`
 	Kind     string   `json:"kind"` // label of the fault class
 }
@@ -107,6 +108,7 @@ func c04Specs(tier string, seed int) []c04Spec {
 			// ---- normalisations on covered input
 			with(func(s *c04Spec) { s.Kind = "preco"; s.Preco = true })
 			with(func(s *c04Spec) { s.Kind = "low-wind"; s.LowWind = []string{iso(y, 5, 5), iso(y, 12, 31), iso(y+1, 1, 1), iso(y+1, 7, 7), iso(y+2, 6, 30)} })
+			with(func(s *c04Spec) { s.Kind = "minmax-swapped"; s.Swapped = []string{iso(y, 5, 6), iso(y, 12, 31), iso(y+1, 1, 1), iso(y+1, 8, 8), iso(y+2, 2, 2)} })
 			for _, col := range []string{"sun", "verd"} {
 				with(func(s *c04Spec) {
 					s.Kind = "sentinel-" + col
@@ -171,9 +173,9 @@ func init() {
 			"layout 2 derives the mean temperature from min/max; layout 1 files always start on 1 January"},
 		Bound: func(t string) string {
 			if t == "quick" {
-				return "3 layouts x 4 start years (all leap phases, window over 2000) x {windows of 1-3 years x 3 start days x 4 series starts x 2 end days; 6 normalisation cases; 31 non-covering shapes}"
+				return "3 layouts x 4 start years (all leap phases, window over 2000) x {windows of 1-3 years x 3 start days x 4 series starts x 2 end days; 7 normalisation cases; 31 non-covering shapes}"
 			}
-			return "3 layouts x 14 start years x {windows of 1-4 years x 3 start days x 4 series starts x 2 end days; 6 normalisation cases; 31 non-covering shapes}"
+			return "3 layouts x 14 start years x {windows of 1-4 years x 3 start days x 4 series starts x 2 end days; 7 normalisation cases; 31 non-covering shapes}"
 		},
 		Budget: func(t string) time.Duration {
 			if t == "quick" {
@@ -210,6 +212,10 @@ func c04Write(root string, sp c04Spec, p *proj.Project) {
 	for _, s := range sp.LowWind {
 		low[s] = true
 	}
+	swapped := map[string]bool{}
+	for _, s := range sp.Swapped {
+		swapped[s] = true
+	}
 	val := func(t time.Time) (proj.Day, bool) {
 		k := t.Format("2006-01-02")
 		if gap[k] || t.Year() == sp.NoYear {
@@ -218,6 +224,9 @@ func c04Write(root string, sp c04Spec, p *proj.Project) {
 		d := c04Rec(t)
 		if low[k] {
 			d.Wind = 0.125
+		}
+		if swapped[k] {
+			d.Tmin, d.Tmax = d.Tmax, d.Tmin
 		}
 		if sent[k+":sun"] {
 			d.Sun = c04None
@@ -306,6 +315,10 @@ func c04Run(raw json.RawMessage, c *mc.Ctx) {
 	for _, s := range sp.LowWind {
 		low[s] = true
 	}
+	swappedDay := map[string]bool{}
+	for _, s := range sp.Swapped {
+		swappedDay[s] = true
+	}
 	covered := !strings.HasPrefix(sp.Kind, "uncovered")
 	days := 0
 	var firstBad string
@@ -346,6 +359,12 @@ func c04Run(raw json.RawMessage, c *mc.Ctx) {
 			{"radiation (PAR)", g.RAD[i], d.Rad / 2}, {"precipitation (cm)", g.REGEN[i], d.Precip / 10 * cor}}
 		for _, x := range cs {
 			c.Eval(1)
+			if swappedDay[k] && (x.name == "minimum temperature" || x.name == "maximum temperature") {
+				// the file has minimum and maximum exchanged on this day: the model may take them as given or put them right
+				if x.got == d.Tmin || x.got == d.Tmax {
+					continue
+				}
+			}
 			if math.Abs(x.got-x.want) > 1e-12*(1+math.Abs(x.want)) {
 				if firstBad == "" {
 					firstBad = k
